@@ -280,11 +280,56 @@ def remove (dflt : α) (xs : List α) (pos : Nat) (removed : Bool) : Stat × Opt
     let ys := xs.eraseIdx (pos - 1)
     (.ok, some (x1, (ys[pos - 1]?).getD dflt), ys.eraseIdx (pos - 1), pos - 1, true)
 
-def add (xs : List α) (pos : Nat) (x y : α) : List α × Nat := ((xs.insertIdx pos x).insertIdx pos y, pos + 1)
+def add (xs : List α) (pos : Nat) (x y : α) : Stat × List α × Nat :=
+  if pos ≤ xs.length then (.ok, (xs.insertIdx pos x).insertIdx pos y, pos + 1) else (.errOutOfRange, xs, pos)
 
 def replace (dflt : α) (xs : List α) (pos : Nat) (x y : α) : Stat × Option (α × α) × List α :=
   if pos = 0 ∨ xs.length ≤ pos - 1 then (.errOutOfRange, none, xs)
   else (.ok, some ((xs[pos - 1]?).getD dflt, x), xs.set (pos - 1) y)
 end Same
+
+/-! ## index-based cursors under interleaved direct calls.  An array iterator is an index; the API
+does not forbid calling the container directly between two iterator calls, after which the index may
+lie beyond the content.  `Pos.*` say what each iterator call then means on the ideal list: exactly the
+`Cursor` behaviour while `pos ≤ length`, a rejection (`next`: END) when the position is stale. -/
+namespace Pos
+def next (xs : List α) (pos : Nat) : Stat × Option α × Nat :=
+  match xs[pos]? with
+  | some x => (.ok, some x, pos + 1)
+  | none => (.iterEnd, none, pos)
+
+def remove (xs : List α) (pos : Nat) (removed : Bool) : Stat × Option α × List α × Nat × Bool :=
+  if removed then (.errValueNotFound, none, xs, pos, removed)
+  else if pos = 0 ∨ xs.length ≤ pos - 1 then (.errOutOfRange, none, xs, pos, removed)
+  else (.ok, xs[pos - 1]?, xs.eraseIdx (pos - 1), pos - 1, true)
+
+def add (xs : List α) (pos : Nat) (x : α) : Stat × List α × Nat :=
+  if pos ≤ xs.length then (.ok, xs.insertIdx pos x, pos + 1) else (.errOutOfRange, xs, pos)
+
+def replace (xs : List α) (pos : Nat) (x : α) : Stat × Option α × List α :=
+  if pos = 0 ∨ xs.length ≤ pos - 1 then (.errOutOfRange, none, xs)
+  else (.ok, xs[pos - 1]?, xs.set (pos - 1) x)
+
+/-- lock step over two lists -/
+def znext (xs ys : List α) (pos : Nat) : Stat × Option (α × α) × Nat :=
+  match xs[pos]?, ys[pos]? with
+  | some x, some y => (.ok, some (x, y), pos + 1)
+  | _, _ => (.iterEnd, none, pos)
+
+def zremove (dflt : α) (xs ys : List α) (pos : Nat) (removed : Bool) :
+    Stat × Option (α × α) × List α × List α × Nat × Bool :=
+  if pos = 0 ∨ xs.length ≤ pos - 1 ∨ ys.length ≤ pos - 1 then (.errOutOfRange, none, xs, ys, pos, removed)
+  else if removed then (.errValueNotFound, none, xs, ys, pos, removed)
+  else (.ok, some ((xs[pos - 1]?).getD dflt, (ys[pos - 1]?).getD dflt), xs.eraseIdx (pos - 1), ys.eraseIdx (pos - 1),
+        pos - 1, true)
+
+def zadd (xs ys : List α) (pos : Nat) (x y : α) : Stat × List α × List α × Nat :=
+  if pos ≤ xs.length ∧ pos ≤ ys.length then (.ok, xs.insertIdx pos x, ys.insertIdx pos y, pos + 1)
+  else (.errOutOfRange, xs, ys, pos)
+
+def zreplace (dflt : α) (xs ys : List α) (pos : Nat) (x y : α) : Stat × Option (α × α) × List α × List α :=
+  if pos = 0 ∨ xs.length ≤ pos - 1 ∨ ys.length ≤ pos - 1 then (.errOutOfRange, none, xs, ys)
+  else (.ok, some ((xs[pos - 1]?).getD dflt, (ys[pos - 1]?).getD dflt), xs.set (pos - 1) x, ys.set (pos - 1) y)
+end Pos
 
 end CC.Spec.SSeq
